@@ -10,11 +10,15 @@ import (
 	"bufio"
 	"flag"
 	"fmt"
+	"math"
 	"math/rand"
 	"os"
 	"sort"
 	"strconv"
 	"strings"
+	"sync"
+
+	"github.com/trajectoryjp/spatial_id_go/v4/common/object"
 )
 
 var (
@@ -44,7 +48,15 @@ func do(name string, args ...string) string {
 		fmt.Fprintf(os.Stderr, "unknown op %q\n", name)
 		os.Exit(2)
 	}
+	if !shareSlices {
+		madePoints = madePoints[:0]
+	}
 	res := guard(func() string { return f(args) })
+	if !shareSlices {
+		if m := pointsModified(); m != "" {
+			res = m
+		}
+	}
 	out.WriteString(name)
 	for _, a := range args {
 		out.WriteByte('\t')
@@ -105,6 +117,56 @@ func splitFresh(s string) []string {
 		tracked = append(tracked, [2][]string{full, append([]string(nil), full...)})
 	}
 	return r
+}
+
+// argPoint: a *object.Point handed to the library as an ARGUMENT. Its fields are remembered so that `do` can verify after the
+// call that the library left the caller's object unmodified; in -conc mode one object per distinct coordinate triple is
+// shared by all goroutines (as shareSlices does for slices), so that a write to an argument object is a data race.
+type madePoint struct {
+	p             *object.Point
+	lon, lat, alt uint64
+}
+
+var (
+	madePoints []madePoint
+	pointCache = map[string]*object.Point{}
+	pointMu    sync.Mutex
+)
+
+func argPoint(lon, lat, alt float64) (*object.Point, error) {
+	if shareSlices {
+		key := fmt.Sprint(math.Float64bits(lon), math.Float64bits(lat), math.Float64bits(alt))
+		pointMu.Lock()
+		defer pointMu.Unlock()
+		if p, ok := pointCache[key]; ok {
+			return p, nil
+		}
+		p, err := object.NewPoint(lon, lat, alt)
+		if err != nil {
+			return nil, err
+		}
+		if !cacheFrozen {
+			pointCache[key] = p
+			madePoints = append(madePoints, madePoint{p, math.Float64bits(p.Lon()), math.Float64bits(p.Lat()), math.Float64bits(p.Alt())})
+		}
+		return p, nil
+	}
+	p, err := object.NewPoint(lon, lat, alt)
+	if err == nil {
+		madePoints = append(madePoints, madePoint{p, math.Float64bits(p.Lon()), math.Float64bits(p.Lat()), math.Float64bits(p.Alt())})
+	}
+	return p, err
+}
+
+// pointsModified reports the first argument point whose fields differ from what they were when it was made
+func pointsModified() string {
+	for _, m := range madePoints {
+		if math.Float64bits(m.p.Lon()) != m.lon || math.Float64bits(m.p.Lat()) != m.lat || math.Float64bits(m.p.Alt()) != m.alt {
+			return fmt.Sprintf("MODIFIED argument point (%v, %v, %v) is now (%v, %v, %v)", math.Float64frombits(m.lon),
+				math.Float64frombits(m.lat), math.Float64frombits(m.alt), m.p.Lon(), m.p.Lat(), m.p.Alt())
+		}
+	}
+	return ""
 }
 
 func atoi(s string) int64 {
